@@ -79,7 +79,7 @@ struct Named {  // identity of an instrumented object
 
 // ------------------------------------------------------------------------------------------------
 // scheduler
-enum class Pol { Random, Pct, Replay, Np };
+enum class Pol { Random, Pct, Replay, Np, Solo };
 
 struct PendOp {
     const char* kind = "";
@@ -141,6 +141,9 @@ struct RT {
     bool active = false;  // scheduler running (inside an execution)
     int lastT = 0;
     int npRun = 0;
+    long soloAt = -1;     // Pol::Solo: step at which one thread starts to run alone
+    int soloT = -1;       // that thread while it runs alone (-1: not in solo phase)
+    bool soloDone = false;
 };
 inline RT* g_rt = nullptr;
 inline thread_local Thr* t_cur = nullptr;
@@ -326,6 +329,38 @@ inline Cand choose()
             report_blocked_and_exit("diverged", 4);
         }
         pol = R.cfg.npTail ? Pol::Np : Pol::Random;
+    }
+    if (pol == Pol::Solo) {
+        // from step soloAt on, one randomly chosen worker runs alone (everybody else is suspended wherever it
+        // is) until its current operation returns; if it cannot move, that is reported as `starved`
+        if (!R.soloDone && R.soloT < 0 && R.step >= R.soloAt) {
+            std::vector<int> ws;
+            for (auto& up : R.thr)
+                if (up->id > 0 && up->state == 1 && up->pend != nullptr && std::string(up->pend->kind) != "start") ws.push_back(up->id);
+            if (!ws.empty()) R.soloT = ws[R.rng() % ws.size()];
+        }
+        if (R.soloT >= 0) {
+            std::vector<Cand> d;
+            for (auto& x : c)
+                if (x.t->id == R.soloT && !x.weak) d.push_back(x);
+            Thr* st = R.thr[(size_t)R.soloT].get();
+            if (st->state == 2) {
+                R.soloT = -1;
+                R.soloDone = true;
+            } else if (d.empty()) {
+                Ev e;
+                e.t = R.soloT;
+                e.k = "starved";
+                e.o = st->pend ? st->pend->kind : "";
+                e.x = st->pend ? intern(st->pend->what) : "";
+                emit(e);
+                R.soloT = -1;
+                R.soloDone = true;
+            } else {
+                return d[R.rng() % d.size()];
+            }
+        }
+        pol = Pol::Random;
     }
     // yielded threads are deprioritised: drop them if someone else can move
     {
@@ -1125,7 +1160,7 @@ inline int main_loop(int argc, char** argv, std::function<void(Exec&)> body)
         if (k == "out") out = v;
         else if (k == "n") n = atol(v.c_str());
         else if (k == "seed") base.seed = strtoull(v.c_str(), nullptr, 10);
-        else if (k == "pol") base.pol = v == "pct" ? Pol::Pct : v == "np" ? Pol::Np : Pol::Random;
+        else if (k == "pol") base.pol = v == "pct" ? Pol::Pct : v == "np" ? Pol::Np : v == "solo" ? Pol::Solo : Pol::Random;
         else if (k == "sched") schedFile = v;
         else if (k == "budget") base.budget = atol(v.c_str());
         else if (k == "spurious") base.spurious = atoi(v.c_str()) != 0;
@@ -1199,6 +1234,7 @@ inline int main_loop(int argc, char** argv, std::function<void(Exec&)> body)
             x.rt.cfg = cfg;
             x.rt.rng.seed(cfg.seed);
             g_rt = &x.rt;
+            if (cfg.pol == Pol::Solo) x.rt.soloAt = (long)(x.rt.rng() % (uint64_t)cfg.pctLen) + 3;
             if (cfg.pol == Pol::Pct)
                 for (int d = 0; d + 1 < cfg.pctDepth; ++d) x.rt.pctChange.push_back((long)(x.rt.rng() % (uint64_t)cfg.pctLen));
             auto t0 = std::make_unique<Thr>();
@@ -1357,7 +1393,14 @@ inline int pick_and_call(const std::vector<int>& menu, const std::vector<const c
     log_ev("call", names[(size_t)code], 0, arg);
     return code;
 }
-inline void ret_ev(const char* name, long res = 0, long w = 0) { step_ev("ret", name, 0, res, w); }
+inline void ret_ev(const char* name, long res = 0, long w = 0)
+{
+    step_ev("ret", name, 0, res, w);
+    if (g_rt && g_rt->soloT == cur_id()) {  // the solo phase ends when the solo thread's operation returns
+        g_rt->soloT = -1;
+        g_rt->soloDone = true;
+    }
+}
 
 }  // namespace vrt
 
